@@ -128,6 +128,11 @@ func mrgStartServer(dir, eng string, P int) (*server.Server, int, error) {
 	return kv, ports[0], nil
 }
 
+const mrgNS = 3
+
+// ordered pool of sub-key names (hash fields, set / zset members); list elements are v1..v3
+var mrgSubs = [mrgNS]string{"a", "a:", "b"}
+
 type mrgDrv struct {
 	conn  *goredis.PoolConn
 	tw    *trace.Writer
@@ -135,10 +140,13 @@ type mrgDrv struct {
 	P     int
 	table string
 	pos   map[string]int
-	// pop[type] = set of key positions present in the scanned table
-	pop                                 [5]map[int]bool
-	nIter, nPart, nPage, nErr, nNoCount int
-	nRev, nBelowP                       int
+	spos  map[string]int
+	// rank of every key position in (length, bytes) order
+	lenRank map[int]int
+	// pop[type][key position] = set of sub positions present (kv: {1}; list: 1..n)
+	pop                                               [5]map[int]map[int]bool
+	nIter, nPart, nPage, nErr, nNoCount               int
+	nRev, nBelowP, nFull, nMatch, nDropped, nLateJoin int
 }
 
 func (d *mrgDrv) part(k int) int {
@@ -153,19 +161,20 @@ func (d *mrgDrv) do(args ...interface{}) (interface{}, error) {
 	return r, err
 }
 
-func (d *mrgDrv) write(ty int, table string, k int) {
+// write one element (ty, key k, sub s) into table; for lists s is the element number
+func (d *mrgDrv) write(ty int, table string, k, s int) {
 	key := "default:" + table + ":" + mrgNames[k-1]
 	switch scnTypes[ty] {
 	case "kv":
 		d.do("set", key, "v")
 	case "hash":
-		d.do("hset", key, "f", "v")
+		d.do("hset", key, mrgSubs[s-1], "v")
 	case "list":
-		d.do("rpush", key, "v")
+		d.do("rpush", key, "v"+strconv.Itoa(s))
 	case "set":
-		d.do("sadd", key, "m")
+		d.do("sadd", key, mrgSubs[s-1])
 	case "zset":
-		d.do("zadd", key, "1", "m")
+		d.do("zadd", key, strconv.Itoa(4-s), mrgSubs[s-1])
 	}
 }
 
@@ -197,97 +206,239 @@ func mrgDecodeCursor(c string) (map[int]string, error) {
 	return out, nil
 }
 
-func (d *mrgDrv) encodeCursor(cur string) string {
+func (d *mrgDrv) encodeCursor(ents map[int]string) string {
 	s := ""
 	for p := 0; p < d.P; p++ {
-		s += strconv.Itoa(p) + ":" + base64.StdEncoding.EncodeToString([]byte(cur)) + ";"
+		if c, ok := ents[p]; ok {
+			s += strconv.Itoa(p) + ":" + base64.StdEncoding.EncodeToString([]byte(c)) + ";"
+		}
 	}
 	return base64.StdEncoding.EncodeToString([]byte(s))
 }
 
+// an element of a merged page: key name and, for FULLSCAN, the sub-key position
+type mrgEl struct {
+	key string
+	sub int
+}
+
 type mrgPage struct {
 	asked map[int]bool // partitions that took part in this request
-	keys  []string
+	els   []mrgEl
 	next  map[int]string
 	err   string
 }
 
+// what one merged iteration does
+type mrgPlan struct {
+	ty       int
+	full     bool // FULLSCAN (elements = (key, sub-key) pairs) instead of SCAN / ADVSCAN (keys)
+	adv, rev bool
+	count    int
+	pat      string
+	patKeys  map[int]bool // key positions the pattern matches (nil = all)
+	dropAt   int          // >0: before request number dropAt the client removes partition dropPart from the cursor
+	dropPart int
+	lateJoin int // >=0: this partition is left out of the first request and added (fresh) to the second
+}
+
+// parse the element list of a merged reply
+func (d *mrgDrv) parseEls(pl mrgPlan, list []interface{}) []mrgEl {
+	var out []mrgEl
+	str := func(x interface{}) string { b, _ := x.([]byte); return string(b) }
+	if !pl.full {
+		for _, x := range list {
+			out = append(out, mrgEl{key: str(x)})
+		}
+		return out
+	}
+	for _, x := range list {
+		item, _ := x.([]interface{})
+		if len(item) == 0 {
+			out = append(out, mrgEl{key: "?", sub: -1})
+			continue
+		}
+		key := str(item[0])
+		switch scnTypes[pl.ty] {
+		case "kv":
+			out = append(out, mrgEl{key, 1})
+		case "hash", "zset":
+			for _, y := range item[1:] {
+				pair, _ := y.([]interface{})
+				sp := -1
+				if len(pair) == 2 {
+					if q, ok := d.spos[str(pair[0])]; ok {
+						sp = q
+					}
+				}
+				out = append(out, mrgEl{key, sp})
+			}
+		case "set":
+			for _, y := range item[1:] {
+				sp := -1
+				if q, ok := d.spos[str(y)]; ok {
+					sp = q
+				}
+				out = append(out, mrgEl{key, sp})
+			}
+		case "list":
+			for _, y := range item[1:] {
+				v := str(y)
+				sp := -1
+				if len(v) == 2 && v[0] == 'v' && v[1] >= '1' && v[1] <= '3' {
+					sp = int(v[1] - '0')
+				}
+				out = append(out, mrgEl{key, sp})
+			}
+		}
+	}
+	return out
+}
+
+// kRank: the rank of key position kp in the order the iteration walks the keys.  SCAN, ADVSCAN
+// and FULLSCAN of kv keys walk "table:key" bytewise (= the pool order).  FULLSCAN of the
+// collection types walks the stored element keys, which carry the key behind a length
+// prefix: shorter keys first, then bytewise.  The documentation does not define FULLSCAN's
+// order; the storage order is taken as the iteration order (completeness, exactly-once and
+// termination are what is judged).
+func (d *mrgDrv) kRank(pl mrgPlan, kp int) int {
+	if !pl.full || scnTypes[pl.ty] == "kv" {
+		return kp
+	}
+	return d.lenRank[kp]
+}
+
+// position of an element in the iteration's pool: key scans: the key position; FULLSCAN: the
+// (key, sub-key) pair in key-major order
+func (d *mrgDrv) elPos(pl mrgPlan, e mrgEl) (pos, kp int) {
+	kp, ok := d.pos[e.key]
+	if !ok {
+		return -1, 0
+	}
+	if !pl.full {
+		return kp, kp
+	}
+	if e.sub < 1 || e.sub > mrgNS {
+		return -1, kp
+	}
+	return (d.kRank(pl, kp)-1)*mrgNS + e.sub, kp
+}
+
 // one merged iteration, then its decomposition into per-partition iterations
-func (d *mrgDrv) iterate(ty int, adv, rev bool, count int) {
+func (d *mrgDrv) iterate(pl mrgPlan) {
 	name := "scan"
-	if adv {
+	if pl.adv {
 		name = "advscan"
 	}
-	if rev {
+	if pl.full {
+		name = "fullscan"
+		d.nFull++
+	}
+	if pl.rev {
 		name = strings.Replace(name, "scan", "revscan", 1)
 		d.nRev++
 	}
-	cursor := ""
+	npos := mrgNPos
+	if pl.full {
+		npos = mrgNPos * mrgNS
+	}
 	all := map[int]bool{}
 	for p := 0; p < d.P; p++ {
 		all[p] = true
 	}
-	if rev {
-		cursor = d.encodeCursor(mrgUpper)
-	}
+	cursor := ""
 	asked := all
+	if pl.rev || pl.lateJoin >= 0 {
+		ents := map[int]string{}
+		asked = map[int]bool{}
+		for p := 0; p < d.P; p++ {
+			if p == pl.lateJoin {
+				continue
+			}
+			ents[p] = ""
+			if pl.rev {
+				ents[p] = mrgUpper
+			}
+			asked[p] = true
+		}
+		cursor = d.encodeCursor(ents)
+	}
 	var pages []mrgPage
 	capped := true
-	for i := 0; i < mrgNPos+6; i++ {
+	dropped := -1
+	for i := 0; i < npos+6; i++ {
 		args := []interface{}{name, "default:" + d.table + ":" + cursor}
-		if adv {
-			args = append(args, strings.ToUpper(scnTypes[ty]))
+		if pl.adv || pl.full {
+			args = append(args, strings.ToUpper(scnTypes[pl.ty]))
 		}
-		if count > 0 {
-			args = append(args, "count", count)
+		if pl.pat != "" {
+			args = append(args, "match", pl.pat)
+		}
+		if pl.count > 0 {
+			args = append(args, "count", pl.count)
 		}
 		pg := mrgPage{asked: asked}
 		r, err := d.do(args...)
 		d.nPage++
-		if err != nil {
-			pg.err = err.Error()
+		fail := func(msg string) {
+			pg.err = msg
 			pages = append(pages, pg)
 			capped = false
+		}
+		if err != nil {
+			fail(err.Error())
 			break
 		}
 		a, ok := r.([]interface{})
 		if !ok || len(a) != 2 {
-			pg.err = fmt.Sprintf("malformed reply %T", r)
-			pages = append(pages, pg)
-			capped = false
+			fail(fmt.Sprintf("malformed reply %T", r))
 			break
 		}
 		nc, _ := a[0].([]byte)
 		ks, _ := a[1].([]interface{})
-		for _, x := range ks {
-			b, _ := x.([]byte)
-			pg.keys = append(pg.keys, string(b))
-		}
+		pg.els = d.parseEls(pl, ks)
 		nx, derr := mrgDecodeCursor(string(nc))
 		if derr != nil {
-			pg.err = "cursor: " + derr.Error()
-			pages = append(pages, pg)
-			capped = false
+			fail("cursor: " + derr.Error())
 			break
 		}
 		pg.next = nx
 		pages = append(pages, pg)
-		if len(nc) == 0 {
+		// the client's manipulation of the cursor between two requests
+		ents := map[int]string{}
+		for p, c := range nx {
+			ents[p] = c
+		}
+		if pl.dropAt > 0 && i+1 == pl.dropAt {
+			if _, ok := ents[pl.dropPart]; ok {
+				delete(ents, pl.dropPart)
+				dropped = pl.dropPart
+				d.nDropped++
+			}
+		}
+		if pl.lateJoin >= 0 && i == 0 {
+			ents[pl.lateJoin] = ""
+			d.nLateJoin++
+		}
+		if len(ents) == 0 {
 			capped = false
 			break
 		}
-		cursor = string(nc)
+		cursor = d.encodeCursor(ents)
 		asked = map[int]bool{}
-		for p := range nx {
+		for p := range ents {
 			asked[p] = true
 		}
 	}
 	d.nIter++
-	if count == 0 {
+	if pl.count == 0 {
 		d.nNoCount++
 	}
-	if count > 0 && count < d.P {
+	if pl.count > 0 && pl.count < d.P {
 		d.nBelowP++
+	}
+	if pl.pat != "" {
+		d.nMatch++
 	}
 	// decomposition (every merged iteration is its own segment of the trace)
 	d.tw.Emit(trace.M{"ev": "reset"})
@@ -295,26 +446,45 @@ func (d *mrgDrv) iterate(ty int, adv, rev bool, count int) {
 	// as others end: its pages are bounded by COUNT itself.  No COUNT, or COUNT below the
 	// number of partitions: every partition is asked with 0 = its default page size.
 	cnt := 100
-	if count >= d.P {
-		cnt = count
+	if pl.count >= d.P {
+		cnt = pl.count
 	}
-	m := make([]int, mrgNPos)
-	for i := range m {
-		m[i] = i + 1
+	m := []int{}
+	for k := 1; k <= mrgNPos; k++ {
+		if pl.patKeys != nil && !pl.patKeys[k] {
+			continue
+		}
+		if !pl.full {
+			m = append(m, k)
+			continue
+		}
+		for s := 1; s <= mrgNS; s++ {
+			m = append(m, (d.kRank(pl, k)-1)*mrgNS+s)
+		}
 	}
 	for p := 0; p < d.P; p++ {
 		pop := []int{}
 		for k := 1; k <= mrgNPos; k++ {
-			if d.pop[ty][k] && d.part(k) == p {
+			if len(d.pop[pl.ty][k]) == 0 || d.part(k) != p {
+				continue
+			}
+			if !pl.full {
 				pop = append(pop, k)
+				continue
+			}
+			for s := 1; s <= mrgNS; s++ {
+				if d.pop[pl.ty][k][s] {
+					pop = append(pop, (d.kRank(pl, k)-1)*mrgNS+s)
+				}
 			}
 		}
 		start := 0
-		if rev {
-			start = mrgNPos + 1
+		if pl.rev {
+			start = npos + 1
 		}
-		d.tw.Emit(trace.M{"ev": "begin", "pop": pop, "cur": start, "cnt": cnt, "rev": rev, "m": m, "pn": false,
-			"sp": "merge-" + strings.Replace(name, "rev", "", 1) + ":" + scnTypes[ty], "nc": count == 0, "count": count, "part": p})
+		d.tw.Emit(trace.M{"ev": "begin", "pop": pop, "cur": start, "cnt": cnt, "rev": pl.rev, "m": m, "pn": false,
+			"sp": "merge-" + strings.Replace(name, "rev", "", 1) + ":" + scnTypes[pl.ty], "nc": pl.count == 0, "count": pl.count,
+			"part": p, "pat": pl.pat, "dropped": p == dropped, "late": p == pl.lateJoin})
 		d.nPart++
 		ended := false
 		for _, pg := range pages {
@@ -322,20 +492,44 @@ func (d *mrgDrv) iterate(ty int, adv, rev bool, count int) {
 				continue
 			}
 			els := []int{}
-			for _, k := range pg.keys {
-				kp, ok := d.pos[k]
+			last := 0
+			for _, e := range pg.els {
+				ep, kp := d.elPos(pl, e)
 				switch {
-				case !ok && p == 0:
+				case kp == 0 && p == 0:
 					els = append(els, -1) // not a key of the scanned table's pool
-				case ok && d.part(kp) == p:
-					els = append(els, kp)
+				case kp != 0 && d.part(kp) == p:
+					els = append(els, ep)
+					last = ep
 				}
 			}
 			nxt := 0
 			if c, ok := pg.next[p]; ok {
 				nxt = -1
-				if kp, ok := d.pos[c]; ok {
-					nxt = kp
+				if !pl.full {
+					if kp, ok := d.pos[c]; ok {
+						nxt = kp
+					}
+				} else if i := strings.IndexByte(c, ':'); i > 0 {
+					// the node's FULLSCAN cursor: base64(key) ":" base64(sub-key | list sequence)
+					kb, e1 := base64.StdEncoding.DecodeString(c[:i])
+					sb, e2 := base64.StdEncoding.DecodeString(c[i+1:])
+					if kp, ok := d.pos[string(kb)]; ok && e1 == nil && e2 == nil {
+						switch scnTypes[pl.ty] {
+						case "kv":
+							nxt = (d.kRank(pl, kp)-1)*mrgNS + 1
+						case "list":
+							// the cursor is an internal sequence number: it designates the last
+							// returned element if that is an element of the same key
+							if last > 0 && (last-1)/mrgNS+1 == d.kRank(pl, kp) {
+								nxt = last
+							}
+						default:
+							if sp, ok := d.spos[string(sb)]; ok {
+								nxt = (d.kRank(pl, kp)-1)*mrgNS + sp
+							}
+						}
+					}
 				}
 			}
 			d.tw.Emit(trace.M{"ev": "page", "els": els, "next": nxt, "err": pg.err})
@@ -343,6 +537,9 @@ func (d *mrgDrv) iterate(ty int, adv, rev bool, count int) {
 				ended = true
 				break
 			}
+		}
+		if p == dropped && !ended {
+			continue // abandoned by the client: no claim about completeness
 		}
 		d.tw.Emit(trace.M{"ev": "end", "capped": capped && !ended})
 	}
@@ -357,6 +554,8 @@ func mergesim(args []string) error {
 	P := fs.Int("P", 3, "partitions")
 	et := fs.String("eng", "pebble", "")
 	noCountRev := fs.Bool("nocount-rev", true, "include reverse merged scans without COUNT")
+	full := fs.Bool("fullscan", true, "include FULLSCAN iterations")
+	fullMatchCount := fs.Bool("fullmatch-count", false, "FULLSCAN with MATCH also with COUNT >= partitions (open finding)")
 	fs.Parse(args)
 
 	dir, err := ioutil.TempDir(os.Getenv("ZR_SCRATCH"), "zrmrg")
@@ -380,9 +579,38 @@ func mergesim(args []string) error {
 			return err
 		}
 	}
-	d := &mrgDrv{conn: conn, rng: rng, P: *P, pos: map[string]int{}}
+	d := &mrgDrv{conn: conn, rng: rng, P: *P, pos: map[string]int{}, spos: map[string]int{}}
 	for i, n := range mrgNames {
 		d.pos[n] = i + 1
+	}
+	for i, n := range mrgSubs {
+		d.spos[n] = i + 1
+	}
+	d.lenRank = map[int]int{}
+	for i, n := range mrgNames {
+		r := 1
+		for _, o := range mrgNames {
+			if len(o) < len(n) || (len(o) == len(n) && o < n) {
+				r++
+			}
+		}
+		d.lenRank[i+1] = r
+	}
+	// MATCH patterns ('*'-prefixed suffixes: SCAN / ADVSCAN / FULLSCAN kv match against
+	// "table:key", the others against the key) and the key positions they match by construction
+	type pat struct {
+		p    string
+		keys map[int]bool
+	}
+	var pats []pat
+	for _, suf := range []string{"1", "a", ":", "0"} {
+		ks := map[int]bool{}
+		for i, n := range mrgNames {
+			if strings.HasSuffix(n, suf) {
+				ks[i+1] = true
+			}
+		}
+		pats = append(pats, pat{"*" + suf, ks})
 	}
 	counts := []int{0, 1, 2, *P, *P + 1, 2**P + 1}
 	for seg := 0; seg < *nseg; seg++ {
@@ -390,28 +618,91 @@ func mergesim(args []string) error {
 		d.table = fmt.Sprintf("s%d%dt", *seed, seg)
 		decoys := []string{d.table + "x", d.table + "0", "r" + d.table}
 		for ty := range scnTypes {
-			d.pop[ty] = map[int]bool{}
+			d.pop[ty] = map[int]map[int]bool{}
 			for k := 1; k <= mrgNPos; k++ {
 				if rng.Intn(100) < 55 {
-					d.write(ty, d.table, k)
-					d.pop[ty][k] = true
+					d.pop[ty][k] = map[int]bool{}
+					switch scnTypes[ty] {
+					case "kv":
+						d.write(ty, d.table, k, 1)
+						d.pop[ty][k][1] = true
+					case "list":
+						n := 1 + rng.Intn(mrgNS)
+						for s := 1; s <= n; s++ {
+							d.write(ty, d.table, k, s)
+							d.pop[ty][k][s] = true
+						}
+					default:
+						for s := 1; s <= mrgNS; s++ {
+							if rng.Intn(100) < 60 || (s == mrgNS && len(d.pop[ty][k]) == 0) {
+								d.write(ty, d.table, k, s)
+								d.pop[ty][k][s] = true
+							}
+						}
+					}
 				}
 				if rng.Intn(100) < 30 {
-					d.write(ty, decoys[rng.Intn(len(decoys))], k)
+					d.write(ty, decoys[rng.Intn(len(decoys))], k, 1+rng.Intn(mrgNS))
 				}
 			}
 		}
+		base := mrgPlan{lateJoin: -1}
 		for _, rev := range []bool{false, true} {
 			for _, cnt := range counts {
 				if cnt == 0 && rev && !*noCountRev {
 					continue
 				}
-				d.iterate(0, false, rev, cnt) // plain SCAN / REVSCAN (kv)
+				pl := base
+				pl.rev, pl.count = rev, cnt
+				d.iterate(pl) // plain SCAN / REVSCAN (kv)
 				for ty := range scnTypes {
 					if ty == 0 || rng.Intn(2) == 0 {
-						d.iterate(ty, true, rev, cnt)
+						pl := base
+						pl.ty, pl.adv, pl.rev, pl.count = ty, true, rev, cnt
+						d.iterate(pl)
 					}
 				}
+			}
+		}
+		// MATCH through the merge
+		for _, pt := range pats {
+			for _, ty := range []int{0, 1 + rng.Intn(4)} {
+				pl := base
+				pl.ty, pl.adv, pl.rev, pl.count, pl.pat, pl.patKeys = ty, true, rng.Intn(2) == 0, counts[1+rng.Intn(len(counts)-1)], pt.p, pt.keys
+				d.iterate(pl)
+			}
+		}
+		// the client edits the cursor: one partition is dropped mid-way / joins one request late;
+		// the others must neither end early nor repeat anything
+		for i := 0; i < 6; i++ {
+			pl := base
+			pl.ty, pl.adv, pl.rev, pl.count = rng.Intn(5), true, rng.Intn(2) == 0, []int{*P, *P + 1, 2**P + 1}[rng.Intn(3)]
+			if i%2 == 0 {
+				pl.dropAt, pl.dropPart = 1+rng.Intn(2), rng.Intn(*P)
+			} else if !pl.rev {
+				pl.lateJoin = rng.Intn(*P)
+			}
+			d.iterate(pl)
+		}
+		if *full {
+			for ty := range scnTypes {
+				for _, cnt := range []int{0, 1, *P, *P + 2, 3**P + 1} {
+					pl := base
+					pl.ty, pl.full, pl.count = ty, true, cnt
+					d.iterate(pl)
+				}
+				pt := pats[rng.Intn(len(pats))]
+				pl := base
+				pl.ty, pl.full, pl.count, pl.pat, pl.patKeys = ty, true, 0, pt.p, pt.keys
+				if *fullMatchCount {
+					// open finding C13-fullscan-match-ends-early: MATCH together with a COUNT that
+					// makes the per-partition page smaller than the data
+					pl.count = []int{*P, 2**P + 1}[rng.Intn(2)]
+				}
+				d.iterate(pl)
+				pl = base
+				pl.ty, pl.full, pl.count, pl.dropAt, pl.dropPart = ty, true, *P+1, 1, rng.Intn(*P)
+				d.iterate(pl)
 			}
 		}
 	}
@@ -420,7 +711,8 @@ func mergesim(args []string) error {
 	}
 	summary(trace.M{"driver": "mergesim", "eng": *et, "partitions": *P, "segments": *nseg, "merged_iterations": d.nIter,
 		"partition_iterations": d.nPart, "merged_pages": d.nPage, "no_count": d.nNoCount, "reverse": d.nRev,
-		"count_below_partitions": d.nBelowP, "errors": d.nErr})
+		"count_below_partitions": d.nBelowP, "fullscan": d.nFull, "with_match": d.nMatch, "partition_dropped": d.nDropped,
+		"partition_joined_late": d.nLateJoin, "errors": d.nErr})
 	// the server's goroutines are not needed any more; leave without a graceful stop
 	_ = kv
 	os.RemoveAll(dir)
